@@ -128,7 +128,7 @@ FINAL_GROUPS = ("evaluate_formula(summary group column)",
 
 class C29Monitor(explore.Monitor):
   seeds = ALL_SEEDS
-  length = 6
+  length = 5
   weights = {"add": 8, "bulk_add": 3, "update": 10, "bulk_update": 3, "remove": 5, "bulk_remove": 2,
              "add_col": 2, "add_formula_col": 6, "remove_col": 2, "rename_col": 2, "modify_type": 2,
              "modify_formula": 6, "to_formula": 2, "to_data": 2, "add_table": 1, "remove_table": 1,
@@ -262,9 +262,9 @@ def main():
   os.environ["VERIF_C29_STATS"] = d
   try:
     from checks import C02
-    C02.tune_explore(6)
-    explore.explore(rep, "checks.C29", "C29Monitor", n_quick=96, n_thorough=2400,
-                    budget_quick_s=40)
+    C02.tune_explore(0 if common.tier() == "quick" else 20)
+    explore.explore(rep, "checks.C29", "C29Monitor", n_quick=64, n_thorough=2400,
+                    budget_quick_s=18)
     calls = raised = 0
     for p in glob.glob(os.path.join(d, "*.jsonl")):
       for line in open(p):
